@@ -29,6 +29,8 @@ EXTENDS Integers, Sequences, FiniteSets
 \*         | "dir" (patch_directory)
 \* phash, purl, pcache, pfiles, parch : the same for the overlay archive; pdir: "absent" | "present"
 \* diff  : "none" | "good" (applies) | "bad" (does not apply) | "missing" (file not in packagefiles)
+\*         | "series": `diff_files = a, b, c` - dser is the sequence of the states of the listed files ("good" | "bad" |
+\*         "missing"), applied in the order written; each file edits a file of its own
 \* kind  : "file" ([wrap-file], everything above) | "git" | "hg" | "svn" ([wrap-git] / [wrap-hg] / [wrap-svn]:
 \*         url + revision; the sources are fetched by running the git / hg / svn client)
 \* vcs   : "ok" | "fail": does the client manage to fetch (VCS kinds only)
@@ -42,7 +44,11 @@ Cmds == {"download", "setup", "setup_nodl"}
 Scenario(mode, hash, url, fb, cache, files, arch, patch, phash, purl, pcache, pfiles, parch, pdir, diff, cmd) ==
     [mode |-> mode, hash |-> hash, url |-> url, fb |-> fb, cache |-> cache, files |-> files, arch |-> arch,
      patch |-> patch, phash |-> phash, purl |-> purl, pcache |-> pcache, pfiles |-> pfiles, parch |-> parch,
-     pdir |-> pdir, diff |-> diff, cmd |-> cmd, kind |-> "file", vcs |-> "ok", rev |-> "head"]
+     pdir |-> pdir, diff |-> diff, cmd |-> cmd, kind |-> "file", vcs |-> "ok", rev |-> "head", dser |-> <<>>]
+\* a wrap that lists several diff files
+Ser(s, q) == [s EXCEPT !.diff = "series", !.dser = q]
+\* the diff files of a wrap in the order they are applied ("Diff files": "applied ... in the order listed")
+Series(sc) == IF sc.diff = "series" THEN sc.dser ELSE IF sc.diff = "none" THEN <<>> ELSE <<sc.diff>>
 Vcs(s, kind, vcs, rev) == [s EXCEPT !.kind = kind, !.vcs = vcs, !.rev = rev]
 Kinds == {"file", "git", "hg", "svn"}
 
@@ -51,7 +57,8 @@ Kinds == {"file", "git", "hg", "svn"}
 \*   "build" meson.build is there        "src"   the whole payload of the recorded source archive
 \*   "part"  only a part of a payload    "evil"  payload of an archive that is not the recorded one
 \*   "patch" overlay of the recorded patch archive / of patch_directory   "evilpatch" another overlay
-\*   "diff"  the diff file has been applied
+\*   "diff"  every diff file of the series has been applied
+\*   "pdiff" some, but not all diff files of the series have been applied
 \* cache / pcache: state of subprojects/packagecache/<source_filename | patch_filename>
 InitFS(sc) == [dir |-> {}, cache |-> sc.cache, pcache |-> sc.pcache]
 
@@ -92,10 +99,18 @@ Result(ok, fs, stage) == [ok |-> ok, fs |-> fs, stage |-> stage]
 \* every failure after the directory was created in this run removes it again
 Failed(fs, stage) == Result(FALSE, [fs EXCEPT !.dir = {}], stage)
 
-DiffStage(sc, fs) ==
-    CASE sc.diff = "none" -> Result(TRUE, fs, "done")
-      [] sc.diff = "good" -> Result(TRUE, [fs EXCEPT !.dir = @ \cup {"diff"}], "done")
-      [] OTHER            -> Failed(fs, "diff")           \* "bad" | "missing"
+\* the series is applied front to back; the first file that is missing or does not apply fails the whole
+\* step (and with it the run: the directory goes away), whatever the files after it would have done
+RECURSIVE DiffFrom(_, _, _)
+DiffFrom(q, k, fs) ==
+    IF k > Len(q) THEN Result(TRUE, [fs EXCEPT !.dir = (@ \ {"pdiff"}) \cup {"diff"}], "done")
+    ELSE IF q[k] = "good" THEN DiffFrom(q, k + 1, [fs EXCEPT !.dir = @ \cup {"pdiff"}])
+    ELSE Failed(fs, "diff")                               \* "bad" | "missing"
+DiffStage(sc, fs) == IF Series(sc) = <<>> THEN Result(TRUE, fs, "done") ELSE DiffFrom(Series(sc), 1, fs)
+\* position of the first diff file of the series that cannot be applied (0: none)
+FirstBadDiff(sc) == LET q == Series(sc)
+                        bad == { k \in 1..Len(q) : q[k] # "good" }
+                    IN IF bad = {} THEN 0 ELSE CHOOSE k \in bad : \A j \in bad : k <= j
 
 PatchStage(sc, fs) ==
     CASE sc.patch = "none" -> DiffStage(sc, fs)
@@ -145,6 +160,7 @@ HalfPrepared(sc, dir) ==
     \/ dir \cap {"src", "evil"} = {}
     \/ (sc.patch # "none" /\ dir \cap {"patch", "evilpatch"} = {})
     \/ (sc.diff # "none" /\ ~("diff" \in dir))
+    \/ "pdiff" \in dir
 \* content that does not match a recorded hash
 BadHashUsed(sc, fs) ==
     \/ ("evil" \in fs.dir /\ ~(sc.mode = "files" /\ ~sc.hash))
